@@ -46,6 +46,8 @@ def run(R):
         r6(R, tus)
     if R.want("C13.R7"):
         r7(R)
+    if R.want("C13.R8"):
+        r8(R, tus)
     if R.want("C13.R5"):
         R.rule("C13.R5", "neighbour windows are computed in int: no difference (column - 1, row - 1, ...) is stored into an unsigned "
                          "variable in localmaxlabel.c or sparse_localmaxlabel / sparse_smooth (a pixel in column 0 or row 0 would see "
@@ -255,6 +257,17 @@ def r3(R, tus, nm, lm):
                         "the previous content of the output buffer")
     if nchk < 1:
         R.fail("C13.R3: no data-dependent read of lout found (anchor moved)")
+    # the walk stage (the last parallel region) is the only writer of the interior of lout for non-maximum pixels: a return that is
+    # not dominated by it hands back whatever the buffer held before the call for those pixels
+    cfg = lm.cfg
+    regions = [n_ for n_ in cfg.find_nodes(lambda n_: n_.k == "omp_end")]
+    rets = [n_ for n_ in cfg.find_nodes(lambda n_: n_.k == "return")]
+    R.shape(bool(regions) and bool(rets), "C13.R3", FILE, "localmaxlabel", "the parallel regions and the return statements")
+    last = max(regions, key=lambda n_: n_.line or 0)
+    for rn in rets:
+        R.check(last.id in cfg.dominators(rn.id), "C13.R3", FILE, rn.line, "localmaxlabel", "return %s after the walk stage" % (estr(rn.e) if rn.e is not None else ""),
+                "this return is reached without running the walk stage, the only place where the interior labels of non-maximum pixels are "
+                "written: for such a frame (e.g. no interior maximum) the output keeps the labels of whatever was in the buffer before")
 
 
 # --------------------------------------------------------------------------------------------------
@@ -421,3 +434,34 @@ def r7(R):
                     "and the labels stored for the first frame are silently overwritten by the second call" % (
                         what, hit[0] if hit else "", src(hit[1])[:60] if hit else ""))
     R.floor("C13.R7", 3)
+
+
+# --------------------------------------------------------------------------------------------------
+def r8(R, tus):
+    """the hand-rolled partition of the walk stage: lo = npx * tid / nt, hi = npx * (tid + 1) / nt.  The image has up to 2^31 - 1 pixels
+    (int indices), so npx * (tid + 1) needs more than 32 bits as soon as npx * nt >= 2^31 (8192 x 8192 pixels with 32 threads): in int
+    arithmetic hi wraps negative, the last threads do nothing and their block keeps its previous content - the result depends on the
+    thread count.  The product with the thread index must be formed in a 64-bit type."""
+    R.rule("C13.R8", "localmaxlabel walk stage: the thread partition lo / hi multiplies the pixel count by the thread index in a 64-bit type "
+                     "(int64_t / long / size_t), not in int")
+    f = cfront.find_func(tus, "localmaxlabel", FILE)
+    n = 0
+    for st, x in cfront.all_exprs(f.body):
+        if not (x.k == "asg" and x.op == "=" and x.a[0].k == "var" and x.a[0].name in ("lo", "hi")):
+            continue
+        rhs = x.a[1]
+        if not any(y.k == "var" and y.name == "tid" for y in ewalk(rhs)):
+            continue
+        n += 1
+        prods = [y for y in ewalk(rhs) if y.k == "bin" and y.op == "*" and any(z.k == "var" and z.name == "tid" for z in ewalk(y))
+                 and any(z.k == "var" and z.name in ("dim0", "dim1") for z in ewalk(y))]
+        if not prods:
+            # e.g. (npx / nt) * tid : the pixel count is divided first - cannot overflow
+            R.inst("C13.R8", "%s:%s %s does not multiply the pixel count by the thread index" % (FILE, f.name, estr_top(x)))
+            continue
+        wide = all(any(w in (y.ty or "") for w in ("long", "int64", "size_t", "ptrdiff", "uint64")) for y in prods)
+        R.check(wide, "C13.R8", FILE, x.line, f.name, "%s computed in %s" % (estr_top(x)[:60], prods[0].ty),
+                "dim0 * dim1 * (thread index) is evaluated in int: it overflows when pixels x threads reaches 2^31 (8192 x 8192 image with 32 "
+                "threads, 4096 x 8192 with 64), the bound wraps negative, the last threads label nothing and the non-maximum pixels of "
+                "their block keep their previous content - a different result for a different thread count")
+    R.shape(n >= 2, "C13.R8", FILE, f.name, "the partition bounds lo / hi as functions of the thread index (found %d)" % n)
